@@ -337,6 +337,8 @@ structure RInv (P : Partition) (d : DFA) (done : List (List Int × Int)) (Pn : P
   inside : ∀ H ∈ Pn.groups, ∃ G ∈ done, ∀ x ∈ H.1, x ∈ G.1
   covered : ∀ G ∈ done, ∀ s ∈ G.1, ∃ H ∈ Pn.groups, s ∈ H.1
   sig : ∀ H ∈ Pn.groups, ∀ s ∈ H.1, ∀ t ∈ H.1, SigEq P d s t
+  nr : Pn.nextRep = (Pn.groups.length : Int)
+  ne : ∀ H ∈ Pn.groups, H.1 ≠ []
 
 /-- a group created while processing the group `G` -/
 structure NewGrp (P : Partition) (d : DFA) (G : List Int) (pairs seen : List (Int × List (Int × Int))) (H : List Int) : Prop where
@@ -352,6 +354,15 @@ structure IInv (P : Partition) (d : DFA) (Pn : Partition) (G : List Int) (pairs 
   grp : ∀ H ∈ p.groups, H ∈ Pn.groups ∨ NewGrp P d G pairs seen H.1
   placed : ∀ pr ∈ seen, ∃ H ∈ p.groups, pr.1 ∈ H.1
   sig : ∀ H ∈ p.groups, ∀ s ∈ H.1, ∀ t ∈ H.1, SigEq P d s t
+  nr : p.nextRep = (p.groups.length : Int)
+  ne : ∀ H ∈ p.groups, H.1 ≠ []
+  app : ∃ news, p.groups = Pn.groups ++ news ∧ (seen ≠ [] → news ≠ [])
+
+theorem Partition.add_of_fresh (p : Partition) (H : List Int) (h : ∀ g ∈ p.groups, setEq g.1 H = false) :
+    p.add H = ⟨p.groups ++ [(H, p.nextRep)], p.nextRep + 1⟩ := by
+  have : p.groups.any (fun g => setEq g.1 H) = false := by
+    rw [List.any_eq_false]; intro g hg; simp [h g hg]
+  simp only [Partition.add, this]; rfl
 
 theorem mem_drop_one_of_seen {α : Type} (seen rest : List α) (x : α) (h : seen ≠ []) :
     x ∈ (seen ++ x :: rest).drop 1 := by
@@ -424,12 +435,21 @@ theorem paag_loop (P : Partition) (d : DFA) (hwf : d.WF) (done : List (List Int 
           have : s ∈ K.1 := hnew.closed (s, σ) hsd ⟨x, hxK, (hsig x hxH).symm⟩
           exact hsno K hK this
       obtain ⟨a1, a2, a3, a4, _⟩ := hI.wf.add hH's hdis
+      have hsH' : s ∈ H' := (hmem s).2 (Or.inl rfl)
+      have hadd : p.add H' = ⟨p.groups ++ [(H', p.nextRep)], p.nextRep + 1⟩ := by
+        apply Partition.add_of_fresh
+        intro g hg
+        cases hse : setEq g.1 H' with
+        | false => rfl
+        | true =>
+          have := (setEq_iff (hI.wf.sorted g hg) hH's).1 hse
+          exact absurd (this ▸ hsH') (hsno g hg)
       have hnewH : NewGrp P d G pairs (seen ++ [(s, σ)]) H' := by
         refine ⟨hsubG, ⟨(s, σ), by simp, (hmem s).2 (Or.inl rfl)⟩, ?_⟩
         intro pr hpr ⟨s', hs', hse⟩
         obtain ⟨x, τ⟩ := pr
         exact (hmem x).2 (Or.inr ⟨τ, hpr, (hsig s' hs').trans hse⟩)
-      refine ⟨a1, fun H hH => a3 H (hI.old H hH), ?_, ?_, ?_⟩
+      refine ⟨a1, fun H hH => a3 H (hI.old H hH), ?_, ?_, ?_, ?_, ?_, ?_⟩
       · intro H hH
         rcases a2 H hH with h | rfl
         · rcases hI.grp H h with h' | h'
@@ -446,8 +466,26 @@ theorem paag_loop (P : Partition) (d : DFA) (hwf : d.WF) (done : List (List Int 
         rcases a2 H hH with h | rfl
         · exact hI.sig H h x hx y hy
         · exact (hsig x hx).symm.trans (hsig y hy)
+      · rw [hadd]; simp only [List.length_append, List.length_cons, List.length_nil]
+        have := hI.nr; omega
+      · intro H hH
+        rcases a2 H hH with h | rfl
+        · exact hI.ne H h
+        · intro he; simp only at he; rw [he] at hsH'; simp at hsH'
+      · obtain ⟨news, hn1, _⟩ := hI.app
+        exact ⟨news ++ [(H', p.nextRep)], by rw [hadd]; simp [hn1], fun _ => by simp⟩
     · simp only [hrep, if_false]
-      refine ⟨hI.wf, hI.old, ?_, ?_, hI.sig⟩
+      refine ⟨hI.wf, hI.old, ?_, ?_, hI.sig, hI.nr, hI.ne, ?_⟩
+      rotate_left 2
+      · obtain ⟨news, hn1, hn2⟩ := hI.app
+        refine ⟨news, hn1, fun _ hnil => ?_⟩
+        -- with no new group yet `s` would be in no group at all
+        apply hrep
+        apply rep_eq_neg_of_not_mem
+        intro K hK hsK
+        rw [hn1, hnil, List.append_nil] at hK
+        obtain ⟨G', hG', hsub⟩ := hR.inside K hK
+        exact hGd G' hG' s (hsub s hsK) hsG
       · intro H hH
         rcases hI.grp H hH with h' | h'
         · left; exact h'
@@ -460,17 +498,23 @@ theorem paag_loop (P : Partition) (d : DFA) (hwf : d.WF) (done : List (List Int 
           exact ⟨K, hK, hsK⟩
 
 theorem paag_spec (P : Partition) (d : DFA) (hwf : d.WF) (done : List (List Int × Int)) (Pn : Partition)
-    (hR : RInv P d done Pn) (G : List Int × Int) (hGd : ∀ G' ∈ done, ∀ x ∈ G'.1, x ∉ G.1) :
-    RInv P d (done ++ [G]) (Pn.partitionAndAddGroups (P.buildGroupTrans d G.1)) := by
+    (hR : RInv P d done Pn) (G : List Int × Int) (hGd : ∀ G' ∈ done, ∀ x ∈ G'.1, x ∉ G.1) (hGs : SSorted G.1) :
+    RInv P d (done ++ [G]) (Pn.partitionAndAddGroups (P.buildGroupTrans d G.1)) ∧
+    ∃ news, (Pn.partitionAndAddGroups (P.buildGroupTrans d G.1)).groups = Pn.groups ++ news ∧
+      (G.1 ≠ [] → news ≠ []) ∧ (G.1 ≠ [] → news.length = 1 → ∀ H ∈ news, H.1 = G.1) := by
   obtain ⟨_, hp2⟩ := pairs_facts P d G.1
   have hpairs : ∀ s σ, (s, σ) ∈ P.buildGroupTrans d G.1 → s ∈ G.1 ∧ σ = sigOf P d s := fun s σ h => (hp2 s σ).1 h
   have h0 : IInv P d Pn G.1 (P.buildGroupTrans d G.1) [] Pn :=
-    ⟨hR.wf, fun H hH => hH, fun H hH => Or.inl hH, by simp, hR.sig⟩
+    ⟨hR.wf, fun H hH => hH, fun H hH => Or.inl hH, by simp, hR.sig, hR.nr, hR.ne, [], by simp, fun h => absurd rfl h⟩
   have hI := paag_loop P d hwf done Pn hR G.1 hGd (P.buildGroupTrans d G.1) hpairs (P.buildGroupTrans d G.1) [] (by simp) Pn h0
   have heq : Pn.partitionAndAddGroups (P.buildGroupTrans d G.1) = (P.buildGroupTrans d G.1).foldl (fun p pr =>
       if p.rep pr.1 = -1 then p.add (collectSame pr.2 ((P.buildGroupTrans d G.1).drop 1) (mkSet [pr.1])) else p) Pn := rfl
   rw [heq]
-  refine ⟨hI.wf, ?_, ?_, hI.sig⟩
+  generalize (P.buildGroupTrans d G.1).foldl (fun p pr =>
+      if p.rep pr.1 = -1 then p.add (collectSame pr.2 ((P.buildGroupTrans d G.1).drop 1) (mkSet [pr.1])) else p) Pn = res at hI
+  have hplaced : ∀ s ∈ G.1, ∃ H ∈ res.groups, s ∈ H.1 :=
+    fun s hs => hI.placed (s, sigOf P d s) ((hp2 s _).2 ⟨hs, rfl⟩)
+  refine ⟨⟨hI.wf, ?_, ?_, hI.sig, hI.nr, hI.ne⟩, ?_⟩
   · intro H hH
     rcases hI.grp H hH with h | h
     · obtain ⟨G', hG', hs⟩ := hR.inside H h
@@ -481,7 +525,36 @@ theorem paag_spec (P : Partition) (d : DFA) (hwf : d.WF) (done : List (List Int 
     rcases hG' with hG' | rfl
     · obtain ⟨H, hH, hm⟩ := hR.covered G' hG' s hs
       exact ⟨H, hI.old H hH, hm⟩
-    · exact hI.placed (s, sigOf P d s) ((hp2 s _).2 ⟨hs, rfl⟩)
+    · exact hplaced s hs
+  · obtain ⟨news, hn1, hn2⟩ := hI.app
+    -- a member of `G` is in no group that was there before
+    have hnotold : ∀ s ∈ G.1, ∀ K ∈ Pn.groups, s ∉ K.1 := by
+      intro s hs K hK hsK
+      obtain ⟨G', hG', hsub⟩ := hR.inside K hK
+      exact hGd G' hG' s (hsub s hsK) hs
+    refine ⟨news, hn1, ?_, ?_⟩
+    · intro hne
+      apply hn2
+      intro hnil
+      obtain ⟨x, hx⟩ := List.exists_mem_of_ne_nil _ hne
+      have := (hp2 x (sigOf P d x)).2 ⟨hx, rfl⟩
+      rw [hnil] at this; simp at this
+    · intro hG1 hlen H hH
+      have hHres : H ∈ res.groups := by rw [hn1]; simp [hH]
+      have hall : ∀ s ∈ G.1, s ∈ H.1 := by
+        intro s hs
+        obtain ⟨K, hK, hsK⟩ := hplaced s hs
+        rw [hn1, List.mem_append] at hK
+        rcases hK with hK | hK
+        · exact absurd hsK (hnotold s hs K hK)
+        · match news, hlen, hH, hK with
+          | [H0], _, hH, hK => simp at hH hK; rw [hH, ← hK]; exact hsK
+      have hsub : ∀ x ∈ H.1, x ∈ G.1 := by
+        rcases hI.grp H hHres with h | h
+        · obtain ⟨z, hz⟩ := List.exists_mem_of_ne_nil _ hG1
+          exact absurd (hall z hz) (hnotold z hz H h)
+        · exact h.sub
+      exact ssorted_ext (hI.wf.sorted H hHres) hGs (fun x => ⟨hsub x, hall x⟩)
 
 /-! ### one round: `refine` -/
 
@@ -495,12 +568,13 @@ theorem refine_spec (P : Partition) (d : DFA) (hwf : d.WF) (hP : PWF P) : RInv P
       intro done Pn hs hR
       simp only [List.foldl_cons]
       apply ih (done ++ [G]) _ (by rw [hs]; simp)
-      apply paag_spec P d hwf done Pn hR G
+      refine (paag_spec P d hwf done Pn hR G ?_ (hP.sorted G (by rw [hs]; simp))).1
       intro G' hG' x hx
       have hd := hP.disj
       rw [hs, List.pairwise_append] at hd
       exact hd.2.2 G' hG' G (by simp) x hx
-  exact gen P.groups [] Partition.empty (by simp) ⟨PWF.empty, by simp [Partition.empty], by simp, by simp [Partition.empty]⟩
+  exact gen P.groups [] Partition.empty (by simp) ⟨PWF.empty, by simp [Partition.empty], by simp, by simp [Partition.empty],
+    by simp [Partition.empty], by simp [Partition.empty]⟩
 
 /-- invariant of the refinement loop -/
 structure PInv (d : DFA) (P : Partition) : Prop where
